@@ -371,6 +371,7 @@ func init() {
 			c.Padding = t.Choose("cfg-padding", 3) == 2
 			c.CrashRate = pick(t, "cfg-crash5", 0, 0, 8)
 			c.Steps = 100 + t.Choose("cfg-steps5", 200)
+			c.ForceInt = pick(t, "cfg-forceint", 0, 0, 0, time.Minute, 20*time.Second)
 			return c
 		},
 		Mons:   func(f *Fleet) []Monitor { return []Monitor{&MonC10{}} },
